@@ -710,6 +710,13 @@ func Build(rec *Recorder, n *Node, validate bool) z.ZogSchema {
 		if n.Req != nil {
 			s.Required(testOpts(n.Req)...)
 		}
+		if n.DefOver {
+			// the last Default call decides, also when it says "none"
+			s.Default(reflect.MakeSlice(reflect.SliceOf(TypeOf(n.Elem)), 1, 1).Interface())
+			if !n.HasDef {
+				s.Default(nil)
+			}
+		}
 		if n.HasDef {
 			s.Default(sliceDefaultGo(n))
 		}
